@@ -13,8 +13,14 @@ from . import solve
 VERIF = os.path.dirname(os.path.dirname(os.path.abspath(__file__)))
 
 
+def default_plugins():
+    from .plug_json import JsonPlugin
+    return [JsonPlugin()]
+
+
 def build(repo=None, opts=None, plugins=()):
     repo = repo or os.environ.get('VERIF_REPO', '/repo')
+    plugins = list(plugins) + default_plugins()
     program = Program(repo)
     contracts = ContractSet(os.path.join(VERIF, 'contracts'))
     speclib = SpecLib(os.path.join(VERIF, 'spec'))
